@@ -72,6 +72,7 @@ struct C04 : Scenario {
             if (filled < 2) { c.currents[0] = 1e-3; c.currents[(size_t)nbk - 1] = 2e-3; }
         }
         if (mode == "relax" && r.chance(0.25)) p.setd("z1", std::round(r.uniform(0.15, 0.3) * 100) / 100);
+        if (mode == "relax" && r.chance(0.35)) p.seti("parity", 1);
         if (mode == "relax" && c.currents.size() == 1 && r.chance(0.25)) { p.seti("boxstart", 1); p.setd("boxw", std::round(r.uniform(0.8, 2.5) * 100) / 100); p.setd("boxh", std::round(r.uniform(0.8, 2.5) * 100) / 100); }
         // off-centre starts (a Gaussian of the start width written to a start file, displaced in position and energy): the sizes
         // are those about the bunch's own centre, whatever dipole motion the history leaves
@@ -208,8 +209,23 @@ struct C04 : Scenario {
                     if (!(-slope > rate / 1.5 && -slope < rate * 1.5)) { o.fail("C04.rate", "emittance relaxes with " + fmt_g(-slope, 4) + " per period, configured damping gives " + fmt_g(rate, 4) + " (2/(f_s t_d))" + ctx); break; }
                 }
             }
+            // (e) the limit does not hinge on the parity of the mesh (a row exactly at zero energy exists for odd sizes only): the same
+            // run on a mesh with one more point; the cell size changes by 1/(n-1), the discretisation error by a few per cent of itself
+            if (bi == 0 && plan.geti("parity", 0) && cfg.interp >= 3 && hsa.b.size() == 1 && b.startfile.empty() && a.startfile.empty()) {
+                Cfg c2 = a; c2.grid = a.grid + 1; c2.output = "c.h5";
+                // keep the physical extent and the per-step decrement: only the number of mesh points differs
+                HistSet hsc = run_one(o, c2, rc, "c", entropy);
+                if (hsc.ok && hsc.b.size() == 1 && hsc.b[0].t.size() == n) {
+                    const Hist& hc = hsc.b[0];
+                    double sc = std::sqrt((hc.sz[n - 1] * hc.sz[n - 1] + hc.se[n - 1] * hc.se[n - 1]) / 2);
+                    double tolp = 0.002 + 0.08 * delta * delta;
+                    o.checks++; o.probe("reach.mesh_parity_twin");
+                    o.hints["parity"] = fmt_g(std::fabs(sa - sc), 3) + "/" + fmt_g(std::fabs(sa - sc) / (delta * delta), 3);
+                    if (std::fabs(sa - sc) > tolp) o.fail("C04.limit_independent_of_mesh_parity", "equilibrium size " + fmt_g(sa, 7) + " on " + std::to_string(a.grid) + " mesh points but " + fmt_g(sc, 7) + " on " + std::to_string(c2.grid) + " (allowed difference " + fmt_g(tolp, 3) + ")" + ctx);
+                }
+            }
             o.simperiods = 2 * ha.t.back();
-            if (bi == 0) o.sample = "relax devrel=" + o.hints["devrel"] + " const=" + o.hints["const"] + " z=" + fmt_g(a.zoom, 3) + "," + fmt_g(b.zoom, 3) + " -> " + fmt_g(za, 6) + "/" + fmt_g(ea, 6) + " , " + fmt_g(zb, 6) + "/" + fmt_g(eb_, 6) + ctx;
+            if (bi == 0) o.sample = "relax parity=" + o.hints["parity"] + " devrel=" + o.hints["devrel"] + " const=" + o.hints["const"] + " z=" + fmt_g(a.zoom, 3) + "," + fmt_g(b.zoom, 3) + " -> " + fmt_g(za, 6) + "/" + fmt_g(ea, 6) + " , " + fmt_g(zb, 6) + "/" + fmt_g(eb_, 6) + ctx;
             }
             return o;
         }
